@@ -128,7 +128,8 @@ end
 def leafLocToIloc (t : Level α) (key : List α) : Except Err Nat := t.leafLoc key 0
 
 mutual
-/-- `__contains__(key)`: note that at a leaf the answer is `True` whatever remains of the key. -/
+/-- the descent of `__contains__(key)` (at a leaf the answer is `True` whatever remains of the key;
+    the length of the key is checked by `containsKey` before the descent) -/
 def contains : Level α → List α → Bool
   | _, [] => false
   | .leaf ls _, k :: _ => (pos? ls k).isSome
@@ -140,6 +141,12 @@ def containsAt : List (Level α) → Nat → List α → Bool
   | c :: _, 0, rest => c.contains rest
   | _ :: cs, i + 1, rest => containsAt cs i rest
 end
+
+/-- `IndexLevel.__contains__(key)` on a level of depth `depthCount`: since commit 88fd864 a key
+    with fewer or more components than the depth is not a leaf loc (before, an over-long key whose
+    prefix is held answered `True`: finding F42). -/
+def containsKey (t : Level α) (depthCount : Nat) (key : List α) : Bool :=
+  if key.length ≠ depthCount then false else t.contains key
 
 end Level
 
@@ -468,20 +475,37 @@ def chain : List α → Level α
   | k :: k' :: rest => .node [k] [chain (k' :: rest)] 0
 
 mutual
-/-- `IndexLevelGO.append(key)` below the root: the descent always follows the LAST target
-    (`node = node.targets[-1]`), the first depth whose index does not hold the key component gets
-    the new label (finding F11: the prefix is never compared with the path taken). -/
+/-- the guard of the repaired append: an existing label is re-entered only when it is the last
+    label of its node (`node.index._loc_to_iloc(k) == len(node.index) - 1`), i.e. when the last
+    target is the one the key's prefix names -/
+def appendOk : Level α → List α → Bool
+  | .leaf _ _, _ => true
+  | .node _ _ _, [] => true
+  | .node ls cs _, k :: rest =>
+    if (pos? ls k).isSome then (pos? ls k == some (ls.length - 1)) && appendOkLast cs rest else true
+def appendOkLast : List (Level α) → List α → Bool
+  | [], _ => true
+  | [c], key => appendOk c key
+  | _ :: c' :: cs, key => appendOkLast (c' :: cs) key
+end
+
+mutual
+/-- `IndexLevelGO.append(key)` below the root: the descent follows the LAST target
+    (`node = node.targets[-1]`) and, since commit c43fc4c, refuses (RuntimeError) a key component
+    that is held by the node's index at another position than the last; the first depth whose
+    index does not hold the key component gets the new label. -/
 def appendGo : Level α → List α → Except Err (Level α)
   | .leaf ls off, [k] =>
-    if (pos? ls k).isSome then .error .shape              -- RuntimeError: unable to set depth_not_found
+    if (pos? ls k).isSome then .error .shape              -- RuntimeError (not the last label / unable to set depth_not_found)
     else .ok (.leaf (ls ++ [k]) off)
   | .leaf _ _, _ => .error .shape
   | .node _ _ _, [] => .error .shape
   | .node ls cs off, k :: rest =>
     if (pos? ls k).isSome then
-      match appendLast cs rest with
-      | .error e => .error e
-      | .ok cs' => .ok (.node ls cs' off)
+      if pos? ls k ≠ some (ls.length - 1) then .error .shape   -- names a closed sub-tree
+      else match appendLast cs rest with
+        | .error e => .error e
+        | .ok cs' => .ok (.node ls cs' off)
     else .ok (.node (ls ++ [k]) (cs ++ [(chain rest).setOffset (lenList cs)]) off)
 def appendLast : List (Level α) → List α → Except Err (List (Level α))
   | [], _ => .error .lookup
@@ -500,18 +524,35 @@ def append (t : Level α) (depthCount : Nat) (key : List α) : Except Err (Level
   else appendGo t key
 
 mutual
-/-- the guard proposed as repair of F11: an existing label is re-entered only when it is the last
-    label of its node (then the last target is the one the key's prefix names) -/
-def appendOk : Level α → List α → Bool
-  | .leaf _ _, _ => true
-  | .node _ _ _, [] => true
-  | .node ls cs _, k :: rest =>
-    if (pos? ls k).isSome then ls.getLast? = some k && appendOkLast cs rest else true
-def appendOkLast : List (Level α) → List α → Bool
-  | [], _ => true
-  | [c], key => appendOk c key
-  | _ :: c' :: cs, key => appendOkLast (c' :: cs) key
+/-- PINNED-TREE BEHAVIOUR (repaired in commit c43fc4c, finding F11): the descent followed the last
+    target without comparing the key's prefix with the path taken.  Kept for the historical
+    counterexample and because the repaired append coincides with it whenever `appendOk` holds. -/
+def appendPinnedGo : Level α → List α → Except Err (Level α)
+  | .leaf ls off, [k] =>
+    if (pos? ls k).isSome then .error .shape
+    else .ok (.leaf (ls ++ [k]) off)
+  | .leaf _ _, _ => .error .shape
+  | .node _ _ _, [] => .error .shape
+  | .node ls cs off, k :: rest =>
+    if (pos? ls k).isSome then
+      match appendPinnedLast cs rest with
+      | .error e => .error e
+      | .ok cs' => .ok (.node ls cs' off)
+    else .ok (.node (ls ++ [k]) (cs ++ [(chain rest).setOffset (lenList cs)]) off)
+def appendPinnedLast : List (Level α) → List α → Except Err (List (Level α))
+  | [], _ => .error .lookup
+  | [c], key => match appendPinnedGo c key with
+    | .error e => .error e
+    | .ok c' => .ok [c']
+  | c :: c' :: cs, key => match appendPinnedLast (c' :: cs) key with
+    | .error e => .error e
+    | .ok r => .ok (c :: r)
 end
+
+def appendPinned (t : Level α) (depthCount : Nat) (key : List α) : Except Err (Level α) :=
+  if key.length ≠ depthCount then .error .shape
+  else if t.labels.isEmpty then .ok (chain key)
+  else appendPinnedGo t key
 
 /-- the duplicate check of `IndexGO.extend` on the Index of a node -/
 def extendDup (cur : List α) : List α → List α → Bool
@@ -563,26 +604,31 @@ def stepGO (t : Level α) (d : Nat) : LOp α → Level α
 
 def runGO (t : Level α) (d : Nat) (ops : List (LOp α)) : Level α := ops.foldl (fun t op => t.stepGO d op) t
 
-/-- the calls the statement covers: full-depth keys whose prefix is the right-most path wherever it
-    exists already (the guard that repairs F11), extensions by well-formed levels of the same depth
-    with new outer labels (an extension sharing an outer label is rejected as a whole, see
-    `extend_rejected_unchanged`) -/
+/-- the calls the statement covers: EVERY append (any key), extensions by well-formed levels of
+    the same depth with new outer labels (an extension sharing an outer label is rejected as a
+    whole, see `extend_rejected_unchanged`) -/
 def admissible (d : Nat) (t : Level α) : LOp α → Prop
-  | .append key => key.length = d ∧ appendOk t key = true
+  | .append _ => True
   | .extend other => WF d other ∧ t.depth = other.depth ∧ ∀ a ∈ other.labels, a ∉ t.labels
 
 def Admissible (d : Nat) : Level α → List (LOp α) → Prop
   | _, [] => True
   | t, op :: ops => admissible d t op ∧ Admissible d (t.stepGO d op) ops
 
+/-- specification: an append is accepted iff the key has full depth, is not held, and every
+    component that is already a label of the node on the right-most path is the last label there
+    (the key continues the tree in the given order) -/
+def accepts (t : Level α) (d : Nat) (key : List α) : Bool :=
+  decide (key.length = d) && !(t.tuples.contains key) && (t.labels.isEmpty || appendOk t key)
+
 /-- specification: what a call adds to the sequence of tuples -/
-def added (cur : List (List α)) : LOp α → List (List α)
-  | .append key => if key ∈ cur then [] else [key]
+def added (t : Level α) (d : Nat) : LOp α → List (List α)
+  | .append key => if accepts t d key then [key] else []
   | .extend other => other.tuples
 
-def addedAll (cur : List (List α)) : List (LOp α) → List (List α)
+def addedAll (t : Level α) (d : Nat) : List (LOp α) → List (List α)
   | [] => []
-  | op :: ops => added cur op ++ addedAll (cur ++ added cur op) ops
+  | op :: ops => added t d op ++ addedAll (t.stepGO d op) d ops
 
 end Level
 
@@ -644,7 +690,7 @@ def step (s : HState α) : HOp α → HState α × HObs α
     | none => (s, .raised .other)
     | some ts => (s, .tuples ts)
   | .readLen => (s, .nat (if s.recache then s.levels.len else s.blocksLen))
-  | .readContains key => (s, .bool (s.levels.contains key))
+  | .readContains key => (s, .bool (s.levels.containsKey s.depth key))
   | .readValues =>
     match (if s.recache then s.updateArrayCache else .ok s) with
     | .error e => (s, .raised e)
@@ -675,7 +721,7 @@ def Coherent (s : HState α) : Prop :=
 def agrees (ts : List (List α)) (d : Nat) : HOp α → HObs α → Prop
   | .readIter, .tuples r => r = ts
   | .readLen, .nat n => n = ts.length
-  | .readContains key, .bool b => key.length = d → (b = true ↔ key ∈ ts)
+  | .readContains key, .bool b => (b = true ↔ key ∈ ts)
   | .readValuesAtDepth dl, .column c => dl < d ∧ c.map some = ts.map (·[dl]?)
   | .readValuesAtDepth dl, .raised _ => d ≤ dl
   | .readValues, .tuples rows => rows = ts
